@@ -421,6 +421,49 @@ void conv_ok()
          + kv("ret", std::is_convertible_v<From, To> ? "true" : "false") + "}");
 }
 
+// a limit value as m * 2^x: integers exactly (x = 0), a double with odd mantissa m
+template <typename T>
+std::string lim(T v)
+{
+    if constexpr (std::is_floating_point_v<T>) {
+        if (v == 0) { return R"({"m":{"s":0,"m":[]},"x":0})"; }
+        if (!std::isfinite(v)) { return R"({"m":{"s":0,"m":[]},"x":-99999})"; }
+        int e    = 0;
+        double f = std::frexp(static_cast<double>(v), &e); // v = f * 2^e, 0.5 <= |f| < 1
+        auto m   = static_cast<long long>(std::ldexp(f, 53));
+        e -= 53;
+        while (m % 2 == 0) {
+            m /= 2;
+            ++e;
+        }
+        return R"({"m":)" + wide((i128)m) + R"(,"x":)" + std::to_string(e) + "}";
+    } else {
+        return R"({"m":)" + wide((i128)v) + R"(,"x":0})";
+    }
+}
+
+// duration::zero()/min()/max() and time_point::min()/max()
+template <int I, typename R>
+void limits()
+{
+    using T  = typename R::type;
+    using D  = ch::duration<T, P<I>>;
+    using TP = ch::time_point<Clock, D>;
+    auto b = [](bool x) { return x ? "1" : "0"; };
+    std::string nm;
+    if constexpr (std::is_floating_point_v<T>) { nm = kv("nm", (-D::max()).count() == D::min().count() ? "true" : "false"); }
+    line(head("limits", "dur") + ki("i", I) + ks("r", R::name) + kv("zero", lim(D::zero().count())) + kv("min", lim(D::min().count()))
+         + kv("max", lim(D::max().count()))
+         + kv("rel", std::string("[") + b(D::min() <= D::zero()) + "," + b(D::zero() <= D::max()) + "," + b(D::min() < D::max()) + "]") + nm + "}");
+    std::string nmt;
+    if constexpr (std::is_floating_point_v<T>) {
+        nmt = kv("nm", (-TP::max().time_since_epoch()).count() == TP::min().time_since_epoch().count() ? "true" : "false");
+    }
+    line(head("limits", "tp") + ki("i", I) + ks("r", R::name) + kv("zero", lim(TP{}.time_since_epoch().count()))
+         + kv("min", lim(TP::min().time_since_epoch().count())) + kv("max", lim(TP::max().time_since_epoch().count()))
+         + kv("rel", std::string("[") + b(TP::min() <= TP{}) + "," + b(TP{} <= TP::max()) + "," + b(TP::min() < TP::max()) + "]") + nmt + "}");
+}
+
 template <int I, int J>
 void statics_pair()
 {
@@ -437,6 +480,9 @@ void statics(std::integer_sequence<int, Js...>)
 {
     line(head("period", "dur") + ki("i", I) + kv("num", wide((i128)P<I>::num)) + kv("den", wide((i128)P<I>::den)) + "}");
     (statics_pair<I, Js + 1>(), ...);
+    limits<I, I64>();
+    limits<I, I32>();
+    limits<I, F64>();
     typedef_event<ch::nanoseconds>("nanoseconds");
     typedef_event<ch::microseconds>("microseconds");
     typedef_event<ch::milliseconds>("milliseconds");
